@@ -43,7 +43,7 @@ def plan(tier, seed, want=("tok", "gen", "uses", "mut", "meta"), scale=1.0,
                 shards += plan_tok("small", L, 0, 2)
             shards += plan_tok("small", 5, 0, 16)
             shards += plan_tok("small", 6, 0, 64)
-            shards += plan_tok("tiny", 7, 0, 64)
+            shards += plan_tok("tiny", 6, 0, 32)
     ngen = int((3000 if tier == "quick" else 60000) * scale)
     if "gen" in want:
         k = 16 if tier == "quick" else 48
